@@ -56,7 +56,7 @@ type c18Call struct {
 
 var c18Events = []string{
 	"connect", "disconnect", "close", "monitor-ok", "monitor-unknown-table", "monitor-empty", "monitor-option-error", "monitor-rejected", "monitor-unknown-method", "monitor-fallback",
-	"monitor-all", "monitor-second", "cancel-ok", "cancel-unknown", "transact-ok", "transact-invalid", "transact-error-result", "echo", "get-hit", "get-miss", "list", "where-list",
+	"monitor-all", "monitor-second", "cancel-ok", "cancel-unknown", "transact-ok", "transact-invalid", "transact-error-result", "echo", "get-hit", "get-miss", "list", "where-list", "create-op", "where-update-op", "where-delete-op",
 	"update-endpoints-same", "update-endpoints-other", "cut", "notification", "bad-notification", "bad-notification-x2", "schema", "connected",
 }
 
@@ -233,6 +233,24 @@ func (s *c18State) run(ev string) string {
 		schemas.Set(m, "_uuid", uN1[0])
 		lst := reflect.New(reflect.SliceOf(s.dbs.Types["N1"]))
 		return errs(s.c.Where(m).List(ctx, lst.Interface()))
+	case "create-op", "where-update-op", "where-delete-op":
+		// the operation builders work on the cache's database model, locally
+		if !s.connectedOnce() {
+			return "never-connected"
+		}
+		m := s.dbs.NewModel("N1")
+		schemas.Set(m, "_uuid", uN1[0])
+		schemas.Set(m, "name", "built")
+		var err error
+		switch ev {
+		case "create-op":
+			_, err = s.c.Create(m)
+		case "where-update-op":
+			_, err = s.c.Where(m).Update(m)
+		default:
+			_, err = s.c.Where(m).Delete()
+		}
+		return errs(err)
 	case "update-endpoints-same":
 		s.c.UpdateEndpoints([]string{"unix:" + s.px.Sock})
 		return "ok"
@@ -480,6 +498,9 @@ func (x c18Session) String() string {
 	if x.Kind == "cache" {
 		return fmt.Sprintf("cache scenario %d under the scheduler", x.NPre)
 	}
+	if x.Kind == "race" {
+		return fmt.Sprintf("%v ; %s || %s started together, free-running under the race detector", x.Seq[:x.NPre], x.Seq[x.NPre], x.Seq[x.NPre+1])
+	}
 	if x.Kind == "points" {
 		return fmt.Sprintf("%v ; [%s parked at each of its synchronisation points] || %s", x.Seq[:x.NPre], x.Seq[x.NPre], x.Seq[x.NPre+1])
 	}
@@ -685,6 +706,10 @@ func runC18(r *ev.Run) {
 				c18CacheRun(r, sessions[i].NPre)
 				return
 			}
+			if sessions[i].Kind == "race" {
+				c18Race(r, sessions[i])
+				return
+			}
 			t0 := time.Now()
 			defer func() {
 				if d := time.Since(t0); d > time.Second && os.Getenv("VERIF_C18_SLOW") != "" {
@@ -709,6 +734,10 @@ func runC18(r *ev.Run) {
 		}
 		if x.Kind == "cache" {
 			c18CacheRun(r, x.NPre)
+			return
+		}
+		if x.Kind == "race" {
+			c18Race(r, x)
 			return
 		}
 		c18Run(r, x)
@@ -807,6 +836,9 @@ func runC18(r *ev.Run) {
 	if os.Getenv("VERIF_C18_ONLY") == "cache" {
 		sessions = nil
 	}
+	if os.Getenv("VERIF_C18_ONLY") == "race" {
+		sessions, nc = sessions[:1], 0
+	}
 	// the long entries (one per cache scenario, one per synchronisation-point enumeration) are spread evenly over the
 	// chunks handed to the worker processes
 	var light, heavy []c18Session
@@ -839,7 +871,9 @@ func runC18(r *ev.Run) {
 	sessions = append(sessions, heavy...)
 	r.Set("sessions", len(sessions))
 	r.Set("alphabet_size", len(evs))
-	r.Sample(map[string]interface{}{"sequence": sessions[len(sessions)/2].String(), "pair": sessions[len(sessions)-3].String()})
+	if len(sessions) > 3 {
+		r.Sample(map[string]interface{}{"sequence": sessions[len(sessions)/2].String(), "pair": sessions[len(sessions)-3].String()})
+	}
 	data := filepath.Join(os.TempDir(), fmt.Sprintf("vc-c18-%d.json", os.Getpid()))
 	b, _ := json.Marshal(sessions)
 	if err := os.WriteFile(data, b, 0o600); err != nil {
@@ -855,6 +889,48 @@ func runC18(r *ev.Run) {
 		}
 		r.Violation("c18."+kind+"."+site, fmt.Sprintf("[%s] the process running the session died: %s (at %s)", x, msg, site), map[string]interface{}{"session": x.String(), "stderr_tail": tailStr(c.Stderr, 3000)})
 	})
+	// auxiliary pass (not model checking: free-running, so that the race detector sees accesses no hand-off orders):
+	// the same calls, in unordered pairs started together, in a -race build of this program
+	if bin := os.Getenv("VERIF_RACE_BIN"); bin != "" && os.Getenv("VERIF_C18_ONLY") != "cache" {
+		var rs []c18Session
+		pres := [][]string{{"connect", "monitor-ok"}}
+		if r.Tier == "thorough" {
+			pres = append(pres, []string{"connect"}, []string{"connect", "monitor-ok", "cut"})
+		}
+		for _, pre := range pres {
+			for i, a := range evs {
+				for _, b := range evs[i:] {
+					for _, rec := range []bool{false, true} {
+						rs = append(rs, c18Session{Kind: "race", Seq: append(append([]string{}, pre...), a, b), NPre: len(pre), Rec: rec})
+					}
+				}
+			}
+		}
+		b, _ := json.Marshal(rs)
+		if err := os.WriteFile(data, b, 0o600); err != nil {
+			panic(err)
+		}
+		logDir, err := os.MkdirTemp("", "vc-c18-race")
+		if err != nil {
+			panic(err)
+		}
+		defer os.RemoveAll(logDir)
+		workers.Binary = bin
+		workers.ExtraEnv = []string{"GORACE=halt_on_error=0 exitcode=0 log_path=" + filepath.Join(logDir, "r"), "VERIF_RACE_LOG=" + filepath.Join(logDir, "r")}
+		workers.Parent(r, len(rs), 30, data, 300*time.Second, func(c workers.Crash) {
+			x := rs[c.Session]
+			msg, site := workers.PanicInfo(c.Stderr)
+			kind := "crash"
+			if c.Timeout {
+				kind, msg, site = "hang", "session made no progress for 300s", "timeout"
+			}
+			r.Violation("c18.race-pass."+kind+"."+site, fmt.Sprintf("[%s] the process running the session died: %s (at %s)", x, msg, site), map[string]interface{}{"session": x.String(), "stderr_tail": tailStr(c.Stderr, 3000)})
+		})
+		workers.Binary, workers.ExtraEnv = "", nil
+		r.Set("race_pass_sessions", len(rs))
+	} else {
+		r.Note("race-detector pass not run (no -race build available)")
+	}
 	r.Set("states", r.DistinctCount("states"))
 	r.Set("traces_validated_against_impl", r.Get("evaluations"))
 	r.Set("distinct_nontrivial", r.DistinctCount("nontrivial"))
@@ -865,4 +941,159 @@ func runC18(r *ev.Run) {
 		}
 	}
 	_ = model.Clone
+}
+
+// ---- auxiliary race-detector pass ----
+
+var c18RaceOff int64
+
+// c18Race runs prefix, then X and Y started together with notifications flowing, free-running; data races reported
+// by the runtime while the session ran are turned into violations.
+func c18Race(r *ev.Run, x c18Session) {
+	s := newC18State(x.Rec)
+	for _, e := range x.Seq[:x.NPre] {
+		select {
+		case <-s.start(e).done:
+		case <-time.After(8 * time.Second):
+		}
+		s.settle()
+	}
+	stop := make(chan struct{})
+	var bg sync.WaitGroup
+	bg.Add(1)
+	go func() {
+		defer bg.Done()
+		for i := 0; i < 40; i++ {
+			select {
+			case <-stop:
+				return
+			default:
+			}
+			_, _ = s.env.Sys.TransactRef([]rm.Op{opUpdate("N1", uN1[0], rm.Row{"name": rm.SetOf(rm.S(fmt.Sprintf("bg%d", i)))})})
+			time.Sleep(300 * time.Microsecond)
+		}
+	}()
+	// and a goroutine that keeps using the local API (cache reads, operation builders, state getters)
+	bg.Add(1)
+	go func() {
+		defer bg.Done()
+		defer func() { _ = recover() }()
+		local := []string{"create-op", "get-hit", "connected", "where-update-op", "list", "schema", "where-list", "where-delete-op"}
+		for i := 0; i < 400; i++ {
+			select {
+			case <-stop:
+				return
+			default:
+			}
+			s.run(local[i%len(local)])
+			time.Sleep(100 * time.Microsecond)
+		}
+	}()
+	barrier := make(chan struct{})
+	res := make(chan string, 2)
+	for _, e := range x.Seq[x.NPre:] {
+		e := e
+		go func() {
+			defer func() {
+				if p := recover(); p != nil {
+					res <- fmt.Sprintf("PANIC: %v", p)
+				}
+			}()
+			<-barrier
+			res <- s.run(e)
+		}()
+	}
+	close(barrier)
+	for range x.Seq[x.NPre:] {
+		select {
+		case out := <-res:
+			if strings.HasPrefix(out, "PANIC") {
+				r.Violation("c18.race-pass.panic", fmt.Sprintf("[%s] %s", x, out), map[string]interface{}{"session": x.String()})
+			}
+		case <-time.After(10 * time.Second):
+			gs := clientGoroutines()
+			r.Violation("c18.race-pass.call-never-returns.at-"+blockedSite(gs, ""), fmt.Sprintf("[%s] a call did not return within 10s: %s", x, strings.Join(gs, " || ")), map[string]interface{}{"session": x.String(), "client_goroutines": gs})
+		}
+	}
+	s.settle() // the background goroutines go on while a reconnect set off by X or Y completes
+	close(stop)
+	bg.Wait()
+	for _, e := range []string{"get-hit", "list", "echo", "notification"} {
+		select {
+		case <-s.start(e).done:
+		case <-time.After(8 * time.Second):
+		}
+	}
+	s.settle()
+	s.close()
+	r.Add("race_pass_evaluations", 1)
+	// what the race detector wrote while this session ran
+	path := fmt.Sprintf("%s.%d", os.Getenv("VERIF_RACE_LOG"), os.Getpid())
+	b, err := os.ReadFile(path)
+	if err != nil || int64(len(b)) <= c18RaceOff {
+		return
+	}
+	text := string(b[c18RaceOff:])
+	c18RaceOff = int64(len(b))
+	for _, rep := range strings.Split(text, "==================") {
+		if !strings.Contains(rep, "DATA RACE") {
+			continue
+		}
+		sig, harness := raceSig(rep)
+		if strings.Contains(rep, "jsonrpc.(*jsonCodec).WriteRequest") && (strings.Contains(rep, "jsonrpc.(*jsonCodec).WriteResponse") || strings.Contains(rep, "rpc2.(*Client).handleRequest")) {
+			// cenkalti/rpc2's JSON codec shares one json.Encoder (and the connection's error values) between the request
+			// writer and the response writer without a lock: a race inside the dependency, between two of its own
+			// goroutines, not between libovsdb accesses. Counted and described in DESIGN.md; not a C18 violation.
+			r.Add("race_reports_inside_rpc2_codec", 1)
+			continue
+		}
+		if harness {
+			r.Add("race_reports_in_harness_only", 1)
+			r.Note("race between harness goroutines only: " + sig)
+			continue
+		}
+		r.Violation("c18.data-race."+sig, fmt.Sprintf("[%s] the race detector reports: %s", x, sig), map[string]interface{}{"session": x.String(), "report": rep})
+	}
+}
+
+// raceSig names a race report by the first libovsdb frame of each of the two accesses.
+func raceSig(rep string) (sig string, harnessOnly bool) {
+	var sites []string
+	lines := strings.Split(rep, "\n")
+	for i := 0; i < len(lines); i++ {
+		l := strings.TrimSpace(lines[i])
+		if !(strings.Contains(l, " by goroutine ") || strings.Contains(l, " by main goroutine")) || !(strings.HasPrefix(l, "Read at") || strings.HasPrefix(l, "Write at") || strings.HasPrefix(l, "Previous ")) {
+			continue
+		}
+		site, first := "", ""
+		for j := i + 1; j < len(lines) && strings.TrimSpace(lines[j]) != ""; j += 2 {
+			fn := strings.TrimSpace(lines[j])
+			if k := strings.LastIndex(fn, "("); k > 0 {
+				fn = fn[:k]
+			}
+			file := ""
+			if j+1 < len(lines) {
+				file = strings.TrimSpace(lines[j+1])
+			}
+			if first == "" {
+				first = fn
+			}
+			if strings.Contains(fn, "ovn-org/libovsdb/") && !strings.Contains(file, "verif_") {
+				site = strings.TrimPrefix(fn, "github.com/ovn-org/libovsdb/")
+				break
+			}
+		}
+		if site == "" {
+			site = "outside:" + first
+		}
+		sites = append(sites, site)
+	}
+	sort.Strings(sites)
+	harnessOnly = true
+	for _, s := range sites {
+		if !strings.HasPrefix(s, "outside:") {
+			harnessOnly = false
+		}
+	}
+	return strings.Join(sites, "~"), harnessOnly
 }
